@@ -346,6 +346,12 @@ func (x *Exec) call(caller *frame, fn *ssa.Function, args []Value, bindings []Va
 		x.Stubs["user init functions of "+fn.Pkg.Pkg.Path()+" skipped (environment set-up)"] = true
 		return nil
 	}
+	if len(fn.Blocks) == 0 {
+		if t := x.P.LinkTargets[name]; t != nil && t != fn {
+			x.Stubs["linkname: "+name+" is provided by "+fullName(t)] = true
+			return x.call(caller, t, args, nil)
+		}
+	}
 	if x.Extern != nil && len(fn.Blocks) == 0 {
 		if v, ok := x.Extern(x, name, fn, args); ok {
 			return v
